@@ -38,6 +38,22 @@ def dag_menu(tier):
         out.append(("diamond-long", dag("diamond", [1, 1, 1, 1], list(vs))))
     out.append(("wjoin-long", dag("wjoin", [1, 1, 1, 1], [8, 5, 3])))
     out.append(("wjoin-long", dag("wjoin", [1, 2, 1, 1], [3, 8, 5])))
+    # an edge next to a longer path between the same two tasks (by-pass):
+    # the bulky direct transfer decides the start, not the path
+    for vs in ((1, 1, 8), (0, 0, 5), (3, 1, 8), (2, 2, 2)):
+        out.append(("tri", dag("tri", [1, 1, 1], list(vs))))
+    out.append(("diamond-skip", dag("diamond-skip", [1, 1, 2, 1],
+                                    [1, 0, 1, 2, 9])))
+    # nodes with and without a data demand in one workflow (runtime is
+    # data-bound for some tasks only)
+    out.append(("chain3-mixed-data", dag("chain3", [1, 1, 1], [1, 0],
+                                         data=[4, None, None])))
+    out.append(("fork-mixed-data", dag("fork", [1, 1, 2], [0, 2],
+                                       data=[None, 5, None])))
+    out.append(("tri-mixed-data", dag("tri", [1, 2, 1], [0, 1, 3],
+                                      data=[6, None, 0])))
+    out.append(("indep3-mixed-data", dag("indep3", [1, 1, 1],
+                                         data=[3, None, 5])))
     if tier == "thorough":
         for vs in itertools.product((0, 1, 3), repeat=2):
             out.append(("chain3", dag("chain3", [2, 1, 1], list(vs))))
